@@ -6,6 +6,7 @@ package main
 // unsupported kinds), event types with special characters and predicate outcomes; C14 oracles.
 
 import (
+	"bytes"
 	"context"
 	"encoding/hex"
 	"encoding/json"
@@ -106,6 +107,117 @@ func genVal(p *prng, depth int) (interface{}, []string) {
 		}
 		return m, append(toks, "}")
 	}
+}
+
+// jshape is encoding/json's reading of a document without insignificant white space: "bad" when it is
+// not such a document, otherwise the values in document order (member names marked K, strings decoded,
+// number literals verbatim). skip: the document has \u escapes in the surrogate range, which the
+// model's reader does not pair (the encoder never writes them).
+func jshape(b []byte) (shape string, skip bool) {
+	if !json.Valid(b) {
+		return "bad", false
+	}
+	var cb bytes.Buffer
+	if json.Compact(&cb, b) != nil || cb.String() != string(b) {
+		return "bad", false
+	}
+	if !utf8.Valid(b) {
+		return "ok", true // raw invalid UTF-8 inside a string: encoding/json replaces it, the model's reader copies it
+	}
+	for i := 0; i+3 < len(b); i++ {
+		if b[i] == '\\' && b[i+1] == 'u' && (b[i+2] == 'd' || b[i+2] == 'D') && strings.IndexByte("89abcdefABCDEF", b[i+3]) >= 0 {
+			return "ok", true
+		}
+	}
+	dec := json.NewDecoder(bytes.NewReader(b))
+	dec.UseNumber()
+	out := []string{"ok"}
+	type frame struct {
+		obj     bool
+		wantKey bool
+	}
+	var stack []frame
+	for {
+		t, err := dec.Token()
+		if err != nil {
+			break
+		}
+		isKey := len(stack) > 0 && stack[len(stack)-1].obj && stack[len(stack)-1].wantKey
+		switch v := t.(type) {
+		case json.Delim:
+			switch v {
+			case '{':
+				out = append(out, "{")
+				if len(stack) > 0 && stack[len(stack)-1].obj {
+					stack[len(stack)-1].wantKey = true
+				}
+				stack = append(stack, frame{obj: true, wantKey: true})
+				continue
+			case '[':
+				out = append(out, "[")
+				if len(stack) > 0 && stack[len(stack)-1].obj {
+					stack[len(stack)-1].wantKey = true
+				}
+				stack = append(stack, frame{})
+				continue
+			case '}':
+				out = append(out, "}")
+				stack = stack[:len(stack)-1]
+				continue
+			case ']':
+				out = append(out, "]")
+				stack = stack[:len(stack)-1]
+				continue
+			}
+		case string:
+			if isKey {
+				out = append(out, "K"+hx([]byte(v)))
+				stack[len(stack)-1].wantKey = false
+				continue
+			}
+			out = append(out, "S"+hx([]byte(v)))
+		case json.Number:
+			out = append(out, "#"+hx([]byte(v)))
+		case bool:
+			if v {
+				out = append(out, "t")
+			} else {
+				out = append(out, "f")
+			}
+		case nil:
+			out = append(out, "n")
+		}
+		if len(stack) > 0 && stack[len(stack)-1].obj {
+			stack[len(stack)-1].wantKey = true
+		}
+	}
+	return strings.Join(out, " "), false
+}
+
+// mutateDoc damages a JSON document in one place (or leaves it alone)
+func mutateDoc(p *prng, b []byte) []byte {
+	d := append([]byte(nil), b...)
+	alphabet := []byte("{}[],:\"\\0123456789.eE+-ntfu/ \n\x01\x7f\xc3\xa9\xff")
+	pick := func() byte { return alphabet[p.intn(len(alphabet))] }
+	if len(d) == 0 {
+		return d
+	}
+	i := p.intn(len(d))
+	switch p.intn(7) {
+	case 0:
+		return append(d[:i], d[i+1:]...)
+	case 1:
+		return append(d[:i+1], d[i:]...)
+	case 2:
+		d[i] = pick()
+	case 3:
+		return append(d[:i], append([]byte{pick()}, d[i:]...)...)
+	case 4:
+		return d[:i]
+	case 5:
+		return append(d, pick())
+	}
+	return d
 }
 
 func jsonMain(args []string) {
@@ -276,6 +388,23 @@ func jsonMain(args []string) {
 						oracle("C14 payload does not decode to the JSON image of the payload")
 					}
 				}
+			}
+		}
+		if has && err == nil && len(stored) > 0 && p.chance(1, 2) {
+			// the model's JSON parser (M8r, the reader of the round-trip theorems) against encoding/json as a
+			// reader: the stored line as it is, and damaged in one place
+			doc := stored[:len(stored)-1]
+			if p.chance(1, 2) {
+				doc = mutateDoc(p, doc)
+			}
+			want, skip := jshape(doc)
+			st.Ops++
+			if skip { // only acceptance is compared
+				st.hit("accepts:" + want)
+				o.emit("accepts "+hx(doc), want)
+			} else {
+				st.hit("parse:" + strings.Fields(want)[0])
+				o.emit("parse "+hx(doc), want)
 			}
 		}
 		if has && err == nil {
